@@ -107,6 +107,7 @@ def inputs(ctx):
     cs = [curves.random_curve(rng, 8, 80) for _ in range(60 if ctx.quick else 500)]
     cs += [P for P in curves.adversarial() if len(P) >= 8]
     cs += curves.trace_windows(rng, 4 if ctx.quick else 40, 20, 80, names=("web0_reduced.csv", "usr0.csv", "web2.csv"))
+    cs += [curves.random_curve(rng, n, n, kind=rng.choice([0, 2, 4])) for n in ([800, 2500] if ctx.quick else [800, 2500, 2500, 6000])]   # long curves
     ints = []
     for _ in range(20 if ctx.quick else 150):       # integer-valued curves, passed to the library as int64 arrays
         n = rng.randint(10, 60)
@@ -126,7 +127,7 @@ def inputs(ctx):
             subsets = rng.sample(subsets, min(len(subsets), 12 if ctx.quick else 60))
         else:
             for _ in range(6 if ctx.quick else 12):
-                size = rng.randint(2, min(len(interior), 14))
+                size = rng.randint(2, min(len(interior), 14 if n <= 200 else 120))
                 if rng.random() < 0.5:      # runs of adjacent knees make multi-member clusters
                     start = rng.randint(1, n - 1 - size)
                     subsets.append(list(range(start, start + size)))
